@@ -139,11 +139,18 @@ CHECKS = {
              "error, by induction over all histories, for ConstrainedList with Entity AASd-014 / AssetInformation AASd-131 / "
              "HasSemantics AASd-118, AdministrativeInformation AASd-005, BasicEventElement direction/UTC/max_interval, language "
              "string sets and category AASd-090 (File/Blob exemption: refuted + partial theorem, open known finding). Typed values "
-             "(AASd-020 / value vs value_type) and the namespace-level list constraints are covered by the oracle and by C01 respectively.",
-        note="Trusted: Coq kernel + vm_compute; translators tools/py2coq/{c02engine,refchecks,intranges,strconstraints}.py (validated "
+             "(AASd-020 / value vs value_type of Property, Qualifier, Extension, Range): the decision structure of "
+             "datatypes.trivial_cast and the class table of the 31 XSD classes are translated from datatypes.py on every run; theorems: the "
+             "translated hierarchy and trivial_cast are the specified ones (finite check over the whole class universe, lifted), accept "
+             "=> value of the announced type with the same payload, converted only within its base kind (booleans only for xs:boolean, "
+             "XSD bounds as literals), accepted iff trivially castable, reject => TypeError / ValueError exactly as documented, and "
+             "for the holder state machines accept => well-formed, reject => unchanged, every history, Range re-casts min and max "
+             "together or not at all. The namespace-level list constraints are covered by C01.",
+        note="Trusted: Coq kernel + vm_compute; translators tools/py2coq/{c02engine,refchecks,intranges,strconstraints,beechecks,semsetter,typedvalues,typedsetters}.py (validated "
              "every run against the Python originals); re.fullmatch decides membership for the escape-free patterns; str.isalpha on "
              "ASCII (visible premise, checked on 128 points); ConstraintsSpec.v transcribes constraints.rst / Part 1 / XSD Part 2; "
-             "ConstraintsModel.v tied by differential runs only.",
+             "ConstraintsModel.v and TypedValue.v (values = class + integer payload + characters + opaque token) tied by "
+             "differential runs only; CPython facts bool < int, datetime < date.",
         technique="fail-closed Python-ast translation + Coq proofs (derivative-based regex theory, induction over op lists) + "
                   "differential execution against the public API + text-derived oracles",
         design_ref="DESIGN.md 6.C02, 10.4"),
